@@ -1,9 +1,11 @@
 import UrcuVerif.Lfht.Conc.SoloCas
 import UrcuVerif.Lfht.Conc.NoFreed
+import UrcuVerif.Lfht.Conc.SoloStep
 import UrcuVerif.Props.C07
 /-!
 # C17 (hash-table facet) — lookups/traversals are wait-free; update operations never wait, they help
-(statements and final theorems; helper lemmas in `Lfht/Conc/InvU.lean`, `WaitFree.lean`, `SoloCas.lean`)
+(statements and final theorems; helper lemmas in `Lfht/Conc/InvU.lean`, `WaitFree.lean`, `SoloCas.lean`, `SoloMu.lean`,
+`SoloStepH.lean`, `SoloStep.lean`)
 
 Model and quantifiers as in `Props/C05.lean`: the suspension points of the *other* threads are arbitrary — any
 reachable state, i.e. in the middle of an add, after a logical delete and before its unlink, between the two
@@ -16,7 +18,12 @@ Proved for ALL reachable states:
 * `cas_fails_only_by_interference`: in a run of one thread alone a `cmpxchg` of add / gc_bucket / replace fails at
   most once per stale value carried into the solo run — own steps keep the loaded values fresh, a failed CAS
   reloads, a CAS on fresh values succeeds.
-Stated, not proved: `solo_terminates` for add / add_unique / add_replace / replace / del (`C17Lfht_full`).
+* `solo_terminates`: add / add_unique / add_replace / replace / del (and the traversals), run alone from any
+  reachable state, return within `(flagged-but-linked + 5) · (2·(|L| + unlinked) + 14)` own steps.  Measure `Mu`
+  (`Lfht/Conc/SoloMu.lean`) = (passes to come) × (length of a pass) + (steps left in this pass); a pass restarts only
+  after the thread unlinked a flagged node (one less to help) or after the one CAS that can fail alone (stale
+  value carried into the solo run); every own step is enabled, does not touch reclaimed memory (C07) and
+  decreases `Mu` (`C17Lfht_full_holds`).
 The memory-safety side condition of the walk (nothing ahead of the walker has been reclaimed, `NoFreedAhead`) is no
 longer an assumption: it follows from layer S of C07 (`walker_no_freed_ahead`, `Lfht/Conc/NoFreed.lean`).
 -/
@@ -46,40 +53,18 @@ def CasFailsOnlyByInterference : Prop :=
       (l = .casGc → s'.nxt (s.th t).prev = { ptr := (s.th t).nx.ptr, bkt := (s.th t).iter.bkt }) ∧
       (l = .casRepl → s'.nxt (s.th t).old = { ptr := (s.th t).node, rem := true, own := true }))
 
-/-- the only step an update operation can take at its pc -/
-def opLabel (x : Thr) : Option Label :=
-  match x.pc with
-  | .aSize | .rSize | .dSize | .lSize => some .ldSize
-  | .aHead => some .ldHeadA | .aNext => some .ldNextA | .aCas => some .casIns | .aGc | .gCas => some .casGc
-  | .wNext => some .ldWalk | .wAssert => some .ldAssertW | .lHead => some .ldHeadL | .fHead => some .ldFirst
-  | .rCas => some .casRepl | .rAssert => some .ldAssertR | .gHead => some .ldHeadG | .gNext => some .ldNextG
-  | .dLd => some .ldDel | .dOr => some .orRem | .dAssert => some .ldAssertD | .dLd2 => some .ldDel2
-  | .dXchg => some .xchgOwn
-  | _ => none
-
-/-- `k` consecutive steps of an operation of thread `t` alone -/
-def soloOp (c : Cfg) (t : Nat) : Nat → State → Option State
-  | 0, s => some s
-  | k + 1, s => match opLabel (s.th t) with
-    | some l => match step c s t l with
-      | some (s', _) => soloOp c t k s'
-      | none => none
-    | none => none
-
-/-- flagged nodes still linked: what a lock-free operation may have to help unlink -/
-def flg (s : State) : Nat := s.L.countP fun p => (s.nxt p).rem
-
-/-- **solo_terminates** (target, not proved): add / add_unique / add_replace / replace / del, run alone from any
-reachable state, return within `(flagged-but-linked + 2) · (|L| + unlinked + 8)` own steps -/
+/-- **solo_terminates**: an operation of a user thread (not a resize helper, not the resize owner) that is at any
+of its pcs (`opLabel`: the unique step it can take there; `soloOp`: `k` such steps alone; both in
+`Lfht/Conc/SoloMu.lean`) returns within `(flg + 5) · (2·(|L| + unl) + 14)` own steps, `flg` = flagged nodes still
+linked (what it may have to help unlink) -/
 def SoloTerminates : Prop :=
   ∀ c s t, Current c → Reach c s → t < c.n → (s.th t).parent = 0 → s.rzOwner ≠ t + 1 → (opLabel (s.th t)).isSome →
-    (∀ p, s.freed p = false) →
-    ∃ k s', k ≤ (flg s + 2) * (s.L.length + unl s + 8) ∧ soloOp c t k s = some s' ∧ (s'.th t).pc = .idle
+    ∃ k s', k ≤ (flg s + 5) * (2 * (s.L.length + unl s) + 14) ∧ soloOp c t k s = some s' ∧ (s'.th t).pc = .idle
 
 /-- the hash-table facet of C17 at full strength (on the model) -/
 def C17Lfht_full : Prop := WalkerWaitFree ∧ HopDecreases ∧ CasFailsOnlyByInterference ∧ SoloTerminates
 
-/-- the conjuncts proved so far -/
+/-- the conjuncts without `solo_terminates` (kept for the record; all of `C17Lfht_full` is proved below) -/
 def C17Lfht_partial : Prop := WalkerWaitFree ∧ HopDecreases ∧ CasFailsOnlyByInterference
 
 theorem walker_wait_free_thm : WalkerWaitFree := by
@@ -96,6 +81,12 @@ theorem cas_fails_only_by_interference : CasFailsOnlyByInterference :=
 
 theorem C17Lfht_partial_holds : C17Lfht_partial :=
   ⟨walker_wait_free_thm, hop_decreases, cas_fails_only_by_interference⟩
+
+theorem solo_terminates_thm : SoloTerminates := by
+  intro c s t hc r ht hp0 hrz hop; exact solo_terminates hc r ht hp0 hrz hop
+
+theorem C17Lfht_full_holds : C17Lfht_full :=
+  ⟨walker_wait_free_thm, hop_decreases, cas_fails_only_by_interference, solo_terminates_thm⟩
 
 /-! ## Non-vacuity: a lookup run alone while a deleter is frozen between its `REMOVED` flag and the unlink -/
 
@@ -114,5 +105,22 @@ example : (run c2 init frozenDel).map (fun s => (s.L, (s.nxt 5).rem, (s.th 0).pc
 /-- T1 alone returns after 5 own steps (`≤ |L| + 0 + 5 = 8`), skipping the flagged node -/
 example : ((run c2 init frozenDel).bind fun s => (solo c2 1 5 s).map fun s' => ((s'.th 1).pc, (s'.th 1).itn, s.L.length + unl s + 5)) =
     some (.idle, 6, 8) := by decide
+
+/-- in the same state T1 calls `cds_lfht_del` on node 6 instead (it looked 6 up before T0 froze): alone, it flags 6,
+helps unlink the flagged 5 on its way, unlinks 6, takes the owner flag and returns -/
+def frozenDel2 : List (Nat × Label) :=
+  [(0, .rlock), (0, .callAdd .plain 5 3 30), (0, .ldSize), (0, .ldHeadA), (0, .casIns),
+   (0, .callAdd .plain 6 3 31), (0, .ldSize), (0, .ldHeadA), (0, .ldNextA), (0, .casIns),
+   (1, .rlock), (1, .callLookup 3 31), (1, .ldSize), (1, .ldHeadL), (1, .ldWalk), (1, .ldWalk), (1, .ldAssertW),
+   (0, .callLookup 3 30), (0, .ldSize), (0, .ldHeadL), (0, .ldWalk), (0, .ldAssertW),
+   (0, .callDel), (0, .ldSize), (0, .ldDel), (0, .orRem),
+   (1, .callDel)]
+
+example : (run c2 init frozenDel2).map (fun s => (s.L, (s.nxt 5).rem, (s.th 0).pc, (s.th 1).pc, (s.th 1).node, flg s)) =
+    some ([1, 5, 6], true, .gHead, .dSize, 6, 1) := by decide
+
+example : ((run c2 init frozenDel2).bind fun s => (soloOp c2 1 13 s).map fun s' =>
+      ((s'.th 1).pc, s'.L, s'.wins 6, (flg s + 5) * (2 * (s.L.length + unl s) + 14))) =
+    some (.idle, [1], 1, 120) := by decide
 
 end UrcuVerif.Lfht.Conc
